@@ -337,6 +337,139 @@ pub fn run_c05(w: &mut W) {
 
 // ------------------------------------------------------------------------------------ C09 / C10
 
+use netflow_parser::variable_versions::data_number::{DataNumber, FieldValue};
+
+/// Does a decoded value belong to a kind whose re-export is a *listed* lossy class?
+/// (Only such values can legitimately make an accepted packet differ from its input.)
+fn lossy_capable(v: &FieldValue, ipfix: bool) -> bool {
+    match v {
+        FieldValue::Duration(_) | FieldValue::MacAddr(_) => true,
+        FieldValue::String(s) => s.contains('\u{FFFD}'),
+        FieldValue::ProtocolType(p) => format!("{:?}", p) == "Unknown",
+        FieldValue::DataNumber(DataNumber::I32(_)) => ipfix,
+        _ => false,
+    }
+}
+
+/// M-rt on packets that were accepted although no abstract stream exists for them (hostile,
+/// mutated, corpus): re-export must reproduce the consumed bytes exactly unless the decoded
+/// packet visibly contains a value of a listed lossy class (then the packet is not judged).
+fn hostile_roundtrip(w: &mut W, prop: &str, want_v9: bool) {
+    use super::common::{hostile_history, make_parsers};
+    let idxs = w.indices();
+    for idx in idxs {
+        if idx % 2 == 0 {
+            continue;
+        }
+        let mut rng = w.begin_case(idx, "accepted-hostile");
+        let h = hostile_history(&mut rng, &w.pools, &w.corpus);
+        let mut sut = Sut::new(0);
+        sut.parsers = make_parsers(&h);
+        for (p, b) in &h.ops {
+            // ids whose governing IPFIX template has a variable-length field, before the call
+            let varlen_before: std::collections::BTreeSet<u16> = {
+                let c = &sut.parsers[*p].ipfix_parser;
+                c.templates.iter().filter(|(_, t)| t.fields.iter().any(|x| x.field_length == 65535)).map(|(k, _)| *k).chain(c.options_templates.iter().filter(|(_, t)| t.fields.iter().any(|x| x.field_length == 65535)).map(|(k, _)| *k)).collect()
+            };
+            let r = std::panic::catch_unwind(std::panic::AssertUnwindSafe(|| sut.parse(*p, b)));
+            let res = match r {
+                Ok(r) => r,
+                Err(_) => {
+                    crate::util::take_panic();
+                    w.rep.panics_foreign += 1;
+                    break;
+                }
+            };
+            let allowed = sut.parsers[*p].allowed_versions.clone();
+            let acct = match crate::observe::account(b, &res, &allowed) {
+                Ok(a) => a,
+                Err(_) => break, // C02's domain
+            };
+            let mut bad: Option<Div> = None;
+            for (e, span) in res.iter().zip(acct.spans.iter()) {
+                let orig = &b[span.0..span.1];
+                match (e, want_v9) {
+                    (NetflowPacket::V9(v), true) => {
+                        w.rep.count("accepted_hostile_packets", 1);
+                        let tainted = v.flowsets.iter().any(|f| match &f.body {
+                            netflow_parser::variable_versions::v9::FlowSetBody::Data(d) => d.fields.iter().any(|r| r.values().any(|(_, x)| lossy_capable(x, false))),
+                            _ => false,
+                        });
+                        if tainted {
+                            w.rep.count("accepted_hostile_not_judged_lossy_value_present", 1);
+                            continue;
+                        }
+                        match v.to_be_bytes() {
+                            Ok(o) if o == orig => w.rep.count("accepted_hostile_roundtrip_exact", 1),
+                            Ok(o) => {
+                                let at = o.iter().zip(orig.iter()).position(|(x, y)| x != y).unwrap_or(o.len().min(orig.len()));
+                                bad = Some(div("v9/accepted/export", "bytes", format!("accepted V9 packet of {} bytes re-exports as {} bytes, first difference at offset {}; no value of a listed lossy class is present", orig.len(), o.len(), at)));
+                            }
+                            Err(e) => bad = Some(div("v9/accepted/export", "failed", format!("to_be_bytes failed: {}", e))),
+                        }
+                    }
+                    (NetflowPacket::IPFix(v), false) => {
+                        use netflow_parser::variable_versions::ipfix as ix;
+                        w.rep.count("accepted_hostile_packets", 1);
+                        let cache = &sut.parsers[*p].ipfix_parser;
+                        let mut tainted = false;
+                        let mut covered = 16usize;
+                        for f in &v.flowsets {
+                            covered += (f.header.length as usize).max(4);
+                            let (fields, id) = match &f.body {
+                                ix::FlowSetBody::Data(d) => (Some(&d.fields), f.header.header_id),
+                                ix::FlowSetBody::OptionsData(d) => (Some(&d.fields), f.header.header_id),
+                                _ => (None, 0),
+                            };
+                            if let Some(fields) = fields {
+                                if fields.iter().any(|r| r.values().any(|(_, x)| lossy_capable(x, true))) {
+                                    tainted = true;
+                                }
+                                // variable-length fields lose their prefix (listed): visible in the governing template
+                                let varlen = cache.templates.get(&id).map(|t| t.fields.iter().any(|x| x.field_length == 65535)).unwrap_or(false) || cache.options_templates.get(&id).map(|t| t.fields.iter().any(|x| x.field_length == 65535)).unwrap_or(false);
+                                // the governing template may have been (re)defined anywhere in this call:
+                                // then neither cache snapshot is known to be the one that governed this set
+                                let redefined = res.iter().any(|e2| match e2 {
+                                    NetflowPacket::IPFix(m) => m.flowsets.iter().any(|g| matches!(&g.body, ix::FlowSetBody::Template(t) if t.template_id == id) || matches!(&g.body, ix::FlowSetBody::OptionsTemplate(t) if t.template_id == id)),
+                                    _ => false,
+                                });
+                                if varlen || redefined || varlen_before.contains(&id) {
+                                    tainted = true;
+                                }
+                            }
+                        }
+                        // sets after an undecodable set / trailing bytes inside the message are dropped (listed)
+                        if covered != (v.header.length as usize).max(16) {
+                            tainted = true;
+                        }
+                        if tainted {
+                            w.rep.count("accepted_hostile_not_judged_listed_class_present", 1);
+                            continue;
+                        }
+                        match v.to_be_bytes() {
+                            Ok(o) if o == orig => w.rep.count("accepted_hostile_roundtrip_exact", 1),
+                            Ok(o) => {
+                                let at = o.iter().zip(orig.iter()).position(|(x, y)| x != y).unwrap_or(o.len().min(orig.len()));
+                                bad = Some(div("ipfix/accepted/export", "bytes", format!("accepted IPFIX message of {} bytes re-exports as {} bytes, first difference at offset {}; no listed lossy class applies", orig.len(), o.len(), at)));
+                            }
+                            Err(e) => bad = Some(div("ipfix/accepted/export", "failed", format!("to_be_bytes failed: {}", e))),
+                        }
+                    }
+                    _ => {}
+                }
+                if bad.is_some() {
+                    break;
+                }
+            }
+            if let Some(d) = bad {
+                w.rep.violation(sig(prop, &d), &d, sut.replay_json());
+                break;
+            }
+        }
+        w.rep.shape(&format!("accepted-hostile {} {}", h.family, sut.ops.len()));
+    }
+}
+
 fn rt_record(w: &mut W, prop: &str, proto: &str, v: Result<RtVerdict, Div>, sut: &Sut) -> bool {
     match v {
         Ok(RtVerdict::Exact) => {
@@ -359,7 +492,11 @@ fn rt_record(w: &mut W, prop: &str, proto: &str, v: Result<RtVerdict, Div>, sut:
 }
 
 pub fn run_c09(w: &mut W) {
+    hostile_roundtrip(w, "C09", true);
     for idx in w.indices() {
+        if idx % 2 == 1 {
+            continue;
+        }
         let mut rng = w.begin_case(idx, "v9-stream");
         let mut cfg = stream_cfg(&mut rng);
         cfg.odd_padding = rng.chance(1, 2);
@@ -408,7 +545,11 @@ pub fn run_c09(w: &mut W) {
 }
 
 pub fn run_c10(w: &mut W) {
+    hostile_roundtrip(w, "C10", false);
     for idx in w.indices() {
+        if idx % 2 == 1 {
+            continue;
+        }
         let mut rng = w.begin_case(idx, "ipfix-stream");
         let mut cfg = stream_cfg(&mut rng);
         cfg.odd_padding = rng.chance(1, 2);
